@@ -115,23 +115,30 @@ def enum_defs(draw, p, name):
     last = -1
     lo = -(2 ** 31) if p.get("neg_discriminants", True) else 0
     mode = draw(st.sampled_from(["implicit", "mixed", "explicit", "mixed"]))
+    hi = 2 ** 31 - 1
+
+    def free_near(val):
+        """nearest value inside i32 that is not taken yet"""
+        base = min(max(val, lo), hi)
+        if base not in used:
+            return base
+        for step in range(1, 4096):
+            for c in (base + step, base - step):
+                if lo <= c <= hi and c not in used:
+                    return c
+        raise AssertionError("no free discriminant")
+
     for v in names:
         explicit = mode == "explicit" or (mode == "mixed" and draw(st.booleans()))
         if explicit:
-            d = draw(st.one_of(st.integers(-6, 12), st.integers(lo, 2 ** 31 - 1), st.sampled_from([lo, 2 ** 31 - 1, -1, 0, 1, 255, 256])))
-            if d < lo:
-                d = lo
-            tries = 0
-            while d in used or (d == 2 ** 31 - 1 and False):
-                d = d + 1 if d < 2 ** 31 - 2 else lo + tries
-                tries += 1
-            disc = d
-            val = d
+            d = draw(st.one_of(st.integers(-6, 12), st.integers(lo, hi), st.sampled_from([lo, hi, -1, 0, 1, 255, 256])))
+            val = free_near(d)
+            disc = val
         else:
             val = last + 1
-            if val in used or val > 2 ** 31 - 1:
-                # implicit successor collides: make it explicit with a free value
-                val = max(used) + 1 if max(used) < 2 ** 31 - 1 else min(used) - 1
+            if val in used or val > hi or val < lo:
+                # the implicit successor would collide or overflow i32 (rustc rejects that): make it explicit
+                val = free_near(val)
                 disc = val
             else:
                 disc = None
